@@ -90,7 +90,7 @@ pub fn gen(tier: &str, seed: u64, emit: &mut dyn FnMut(String)) {
         // every section_length 0..=1021 and over-limit ones, with rotating choices of the other dimensions
         let mut ls: Vec<usize> = (0..=1021).collect(); ls.extend([1022, 1023, 1024, 1500, 4095]);
         for &l in ls.iter() {
-            let reps = if big { 40 } else { 4 };
+            let reps = if big { 16 } else { 4 };
             for r in 0..reps {
                 let (fm, pm, cm, pr) = if big { (rng.below(6), rng.below(6), rng.below(6), rng.below(4)) } else { ((l as u64 + r) % 6, (l as u64 / 6 + r) % 6, (l as u64 / 36 + r) % 6, (l as u64 + r) % 4) };
                 emit(one_case(compact, l, fm, pm, cm, pr, &mut rng));
